@@ -714,6 +714,7 @@ class BaseWorker:
     """Minimal worker: records nothing, never parks.  Engines subclass."""
     name = "T0"
     abort = False
+    real = ()
     AbortExc = SystemExit
 
     def __init__(self, name="T0"):
